@@ -16,6 +16,7 @@ package internal
 
 import (
 	"context"
+	"encoding/json"
 	"errors"
 	"fmt"
 	"net"
@@ -103,6 +104,44 @@ type ApplyRequest struct {
 	Database     int      `json:"Database"`
 	CMD          []string `json:"CMD"`
 	Key          string   `json:"Key"` // Optional: Used with delete-key type to specify which key to delete.
+}
+
+// applyRequestWire is the JSON form of an ApplyRequest. Command arguments and keys are arbitrary
+// bytes, which a JSON string cannot carry unchanged, so they travel as byte slices (base64).
+type applyRequestWire struct {
+	Type         string   `json:"Type"`
+	ServerID     string   `json:"ServerID"`
+	ConnectionID string   `json:"ConnectionID"`
+	Protocol     int      `json:"Protocol"`
+	Database     int      `json:"Database"`
+	CMD          [][]byte `json:"CMD"`
+	Key          []byte   `json:"Key"`
+}
+
+func (r ApplyRequest) MarshalJSON() ([]byte, error) {
+	w := applyRequestWire{
+		Type: r.Type, ServerID: r.ServerID, ConnectionID: r.ConnectionID,
+		Protocol: r.Protocol, Database: r.Database, Key: []byte(r.Key),
+	}
+	for _, arg := range r.CMD {
+		w.CMD = append(w.CMD, []byte(arg))
+	}
+	return json.Marshal(w)
+}
+
+func (r *ApplyRequest) UnmarshalJSON(b []byte) error {
+	var w applyRequestWire
+	if err := json.Unmarshal(b, &w); err != nil {
+		return err
+	}
+	*r = ApplyRequest{
+		Type: w.Type, ServerID: w.ServerID, ConnectionID: w.ConnectionID,
+		Protocol: w.Protocol, Database: w.Database, Key: string(w.Key),
+	}
+	for _, arg := range w.CMD {
+		r.CMD = append(r.CMD, string(arg))
+	}
+	return nil
 }
 
 type ApplyResponse struct {
